@@ -2642,6 +2642,12 @@ class op(object):
         if equalities: equalities[0].multiplier.value = sol['y']
 
         self.status = sol['status']
+        if self.status == 'unknown':
+            # not solved successfully: values of variables and 
+            # multipliers are None (and not the last iterates)
+            x.value = None
+            inequalities[0].multiplier.value = None
+            if equalities: equalities[0].multiplier.value = None
         if type(t) is tuple:
             for v,f in iter(vmap.items()): v.value = f.value()
             for c,f in iter(mmap.items()): c.multiplier.value = f.value()
